@@ -264,7 +264,7 @@ def run_c04(tier, seed):
     chk.assumptions += ["non-unrolled arrays whose elements are structs are outside the domain (the statement speaks of scalar leaves)",
                         "a leaf carries the options of the signal block named like its own last name segment (DESIGN.md, interpretation decisions)"]
     return chk.finish(
-        "histories = sequences of generate() calls on one encoder object; (G) all histories of maximal length %s over 3 bindings "
+        "histories = sequences of generate() calls on one encoder object; (G) all histories of maximal length %s over 4 bindings (two of them share a name under different protocols) "
         "emitted by MC_Layout (sampled to %d) replayed and compared leaf by leaf; (T) %d random fixed-size schemas x both unroll "
         "settings x random histories of 1..12 calls validated by Trace_Layout; distinct = (struct shapes, unroll, binding)"
         % (ncalls, limit, n))
